@@ -17,6 +17,7 @@ structure MState where
   isOpen : Bool := false
   ro : Bool := false
   lost : Option String := some "no session"
+  aliases : List ObjId := []       -- arrays whose first descriptor is an alias range dimension: writes through it land on the array
 deriving Inhabited
 
 /-- what the model says the library answers -/
@@ -555,7 +556,27 @@ def step (ms : MState) (op : String) (args impl : List String) : MState × Pred 
       else fail s!"set {field} on {h.kind}"
     | _ => fail "set through an uninitialised holder"
   -- ops that touch only what the store model does not carry
-  | "adim", _ | "sdim", _ | "ddims", _ | "pvalues", _ | "pset", _ | "dims", _ | "gdim", _ | "pget", _ | "da_read1", _ => (ms, .skip)
+  -- an alias range dimension mirrors its array: unit and label set through it are the array's, its ticks are the array's data
+  | "adim", slot :: "alias" :: _ =>
+    (match slot? ms slot with
+     | some (some h) => ({ ms with aliases := if implOk impl then h.obj :: ms.aliases else ms.aliases }, .skip)
+     | _ => (ms, .skip))
+  | "ddims", slot :: _ =>
+    (match slot? ms slot with
+     | some (some h) => ({ ms with aliases := if implOk impl then ms.aliases.filter (· != h.obj) else ms.aliases }, .skip)
+     | _ => (ms, .skip))
+  | "sdim", [slot, idx, field, value] =>
+    (match slot? ms slot with
+     | some (some h) =>
+       if implOk impl && idx == "1" && ms.aliases.contains h.obj then
+         let s' := if field == "unit" then (if value == "~" then s.removeAttr h.obj "unit" else s.setAttr h.obj "unit" value)
+           else if field == "label" then (if value == "~" then s.removeAttr h.obj "label" else s.setAttr h.obj "label" value)
+           else if field == "ticks" then s.setAttr h.obj "ds:shape" (fmtList [toString ((parseList value).getD []).length])
+           else s
+         ({ ms with store := s' }, .skip)
+       else (ms, .skip)
+     | _ => (ms, .skip))
+  | "adim", _ | "sdim", _ | "pvalues", _ | "pset", _ | "dims", _ | "gdim", _ | "pget", _ | "da_read1", _ => (ms, .skip)
   -- the extent of an array is carried (MultiTag::extents compares the extents of two arrays): an accepted `da_setext` sets it to the
   -- requested shape, an accepted whole-array write of a vector of n elements to [n]
   | "da_setext", [slot, shape] =>
